@@ -44,7 +44,13 @@ func (o goMapObject) toKey(name string) (key reflect.Value, err error) {
 			panic(caught)
 		}
 	}()
-	return stringToReflectValue(name, o.keyType.Kind())
+	key, err = stringToReflectValue(name, o.keyType.Kind())
+	if err == nil && key.Type() != o.keyType {
+		// A named key type (type K string): the key has to be of that type,
+		// or reflect panics in MapIndex / SetMapIndex.
+		key = key.Convert(o.keyType)
+	}
+	return key, err
 }
 
 func (o goMapObject) toValue(value Value) reflect.Value {
